@@ -198,3 +198,28 @@ MUTANTS += [
     m("c06-module-integrate", ["C06"], OP, "return field.integrate(direction=direction, cumulative=cumulative)", "return field.integrate(direction=direction)"),
     m("c06-dv", ["C06"], M, "return np.prod(self.cell).item()", "return np.sum(self.cell).item()"),
 ]
+
+MUTANTS += [
+    # ------------------------------------------------------------------ C07
+    m("c07-sel-index-from-other-point", ["C07"], M, "selection_index = self.point2index(test_point)[dim_index]", "selection_index = self.point2index(self.region.center)[dim_index]"),
+    m("c07-sel-slice-exclusive", ["C07"], M, "selection_index = slice(selection_index[0], selection_index[1] + 1)", "selection_index = slice(selection_index[0], selection_index[1])"),
+    m("c07-sel-unsorted", ["C07"], M, "for point in sorted(range_):", "for point in range_:"),
+    m("c07-sel-outside-allowed", ["C07"], M, "                if (\n                    range_ < self.region.pmin[dim_index]\n                    or range_ > self.region.pmax[dim_index]\n                ):", "                if (\n                    range_ < self.region.pmin[dim_index]\n                    and range_ > self.region.pmax[dim_index]\n                ):"),
+    m("c07-fieldsel-axis", ["C07"], F, "slice(None), self.mesh.region.ndim + 1, {dim_index: sel_index}", "slice(None), self.mesh.region.ndim + 1, {0: sel_index}"),
+    m("c07-meshsel-plane-keeps-axis", ["C07"], M, "idxs = [i for i in range(self.region.ndim) if i != dim_index]", "idxs = [i for i in range(self.region.ndim) if i != 0]"),
+    m("c07-meshsel-range-step", ["C07"], M, "min_val = selection[0] - step", "min_val = selection[0]"),
+    m("c07-meshsel-subregion-clip", ["C07", "C14"], M, "sub_p_1[dim_index] = max(min_val, sub_reg_p_min)", "sub_p_1[dim_index] = min(min_val, sub_reg_p_min)"),
+    m("c07-meshsel-subregion-touching", ["C07", "C14"], M, "if sub_reg_p_min >= max_val or min_val >= sub_reg_p_max:", "if sub_reg_p_min > max_val or min_val > sub_reg_p_max:"),
+    m("c07-meshpad-sides", ["C07"], M, "pmin[axis] -= pad_width[direction][0] * self.cell[axis]", "pmin[axis] -= pad_width[direction][1] * self.cell[axis]"),
+    m("c07-meshpad-cell-axis", ["C07"], M, "pmax[axis] += pad_width[direction][1] * self.cell[axis]", "pmax[axis] += pad_width[direction][1] * self.cell[0]"),
+    m("c07-meshpad-drops-bc", ["C07"], M, "            cell=self.cell,\n            bc=self.bc,\n        )", "            cell=self.cell,\n        )"),
+    m("c07-getitem-ceil", ["C07"], M, "p2_idx = (np.ceil((item.pmax - self.region.pmin) / self.cell) - 1).astype(int)", "p2_idx = (np.floor((item.pmax - self.region.pmin) / self.cell) - 1).astype(int)"),
+    m("c07-getitem-lower", ["C07"], M, "p1 = np.subtract(self.index2point(self.point2index(item.pmin)), hc)", "p1 = np.subtract(self.index2point(self.point2index(item.pmin)), self.cell)"),
+    m("c07-getitem-no-guard", ["C07"], M, "        if item not in self.region:\n            msg = f\"Subregion '{item}'", "        if False:\n            msg = f\"Subregion '{item}'"),
+    m("c07-fieldgetitem-offset", ["C07"], F, "index_max = np.add(index_min, submesh.n)", "index_max = np.add(index_min, submesh.n - 1)"),
+    m("c07-region2slices-half", ["C07"], M, "i1 = self.point2index(region.pmin + self.cell / 2)", "i1 = self.point2index(region.pmin)"),
+    m("c07-region2slices-inclusive", ["C07"], M, "slice(i1[i], i2[i] + 1)", "slice(i1[i], i2[i])"),
+    m("c07-resample-region", ["C07"], F, "mesh = df.Mesh(region=self.mesh.region, n=n)", "mesh = df.Mesh(p1=self.mesh.region.pmin, p2=self.mesh.region.pmax + self.mesh.cell, n=n)"),
+    m("c07-fieldpad-axis", ["C07"], F, "d[self.mesh.region._dim2index(key)] = value", "d[self.mesh.region.ndim - 1 - self.mesh.region._dim2index(key)] = value"),
+    m("c07-assemble-index", ["C07"], U, "    index = [value] * n\n", "    index = [value] * (n - 1)\n"),
+]
